@@ -7,6 +7,7 @@ from ..report import Ob
 from ..cfg import calls_at, call_attr, is_self_attr, own_exprs, walk_now
 from ..state import Analysis, State, TOP
 from ..effects import Effects, must_defs, reaching_writes
+from ..norm import FrameEnv, ctext
 from .. import inventory as inv
 
 EXPLANATION = '''
@@ -356,6 +357,9 @@ def simulate(ctx, o):
                     st = st.with_flag('init-after-run')
             if nm == 'run' and recv in ('self._env', 'self.env'):
                 st = st.with_flag('ran-twice' if 'ran' in st.flags else 'ran')
+                dur = cl.args[0] if cl.args else next((k.value for k in cl.keywords if k.arg == 'simulation_duration'), None)
+                if dur is None or ctext(dur, FrameEnv(n.frame)) != fn.args.args[1].arg:
+                    st = st.with_flag('ran-other-duration')
                 if st.fields.get('_simulation_is_initialized') != 'T':
                     st = st.with_flag('ran-uninitialised')
             if nm == '_reset' or nm == 'reset':
@@ -505,8 +509,12 @@ def find_assets(ctx, o):
     v = loops[0].target.id
     kinds = {}     # param -> kind of match
 
-    def match_atom(test):
-        """(param, 'none'|'match', polarity) for a recognised literal"""
+    def match_atom(test, frame=None):
+        """(param, 'none'|'match', polarity) for a recognised literal; inside an inlined helper the names are first mapped back to the
+        expressions of find_assets itself"""
+        if frame is not None and frame is not g.top:
+            from ..norm import subst
+            test = subst(test, FrameEnv(frame), keep=(v,))
         if isinstance(test, ast.Compare) and len(test.ops) == 1:
             l, r, op = test.left, test.comparators[0], test.ops[0]
             for x, y in ((l, r), (r, l)):
@@ -533,7 +541,7 @@ def find_assets(ctx, o):
     unknown = []
 
     def refine(an, test, truth, st, frame):
-        r = match_atom(test)
+        r = match_atom(test, frame)
         if r is None:
             unknown.append(ast.unparse(test))
             return st
